@@ -152,6 +152,35 @@ fn writers_for(input: &[u8], with_empty_writes: bool, with_flushes: bool) -> (u6
             }
         }
     }
+    // the mapped writer over inner writers that accept only part of what a single write call offers
+    // (every mapped segment must still arrive completely): strings of length <= 5
+    if n <= 5 && !with_flushes && !with_empty_writes {
+        for (fname, f) in mapping_fns().into_iter().take(2) {
+            let want = ref_mapped(input, &f);
+            for mask in 0..cuts {
+                for kind in 1..SINK_KINDS {
+                    let store = std::rc::Rc::new(std::cell::RefCell::new(Vec::new()));
+                    {
+                        let mut w = mapped(mk_sink(kind, store.clone()), M, f);
+                        let mut start = 0;
+                        for i in 0..n {
+                            if i + 1 == n || mask & (1 << i) != 0 {
+                                w.write_all(&input[start..=i]).unwrap();
+                                calls += 1;
+                                start = i + 1;
+                            }
+                        }
+                        let mut inner = w.unwrap();
+                        inner.flush().unwrap();
+                    }
+                    let got = store.borrow().clone();
+                    if got != want {
+                        viols.push(("mapped:content-short-inner-writer".to_string(), format!("MappedWrite({fname}) over an inner writer '{}' input {:?} chunk mask {mask:b}: inner writer holds {:?}, expected {:?}", SINK_NAMES[kind], String::from_utf8_lossy(input), String::from_utf8_lossy(&got), String::from_utf8_lossy(&want)), json!({"kind": "mapped", "input": input, "mask": mask, "fn": fname, "finish": 1, "flushes": false})));
+                    }
+                }
+            }
+        }
+    }
     // tee: both targets get the full input for every chunking and every pair of target behaviours
     // (accepts everything, accepts at most 1 / 2 bytes per write call, line-buffered in front of
     // either); a failing target is reported. The marker stands for LF here (line-buffered targets).
@@ -265,6 +294,28 @@ fn entry_points_with_short_writers() -> (u64, Vec<Viol>) {
         runs += 1;
         if let Some(v) = v {
             viols.push(v);
+        }
+    }
+    // "returns once both streams close": a child that closes stdout and stderr and keeps running for
+    // 6 more seconds; spawn_and_write_streams must come back long before the child exits
+    {
+        let so = std::sync::Arc::new(std::sync::Mutex::new(Vec::new()));
+        let se = std::sync::Arc::new(std::sync::Mutex::new(Vec::new()));
+        let t0 = std::time::Instant::now();
+        let r = Command::new("/bin/sh").arg("-c").arg("printf out; printf err >&2; exec >&- 2>&-; sleep 6").stdin(std::process::Stdio::null()).spawn_and_write_streams(mk_sink_s(0, so.clone()), mk_sink_s(0, se.clone()));
+        let took = t0.elapsed();
+        runs += 1;
+        match r {
+            Ok(mut child) => {
+                let _ = child.kill();
+                let _ = child.wait();
+                if took > Duration::from_secs(4) {
+                    viols.push(("entry:waits-for-exit-not-for-streams".to_string(), format!("spawn_and_write_streams returned after {:.1} s for a child that closed both streams at once and exits after 6 s", took.as_secs_f64()), json!({"kind": "entry-short"})));
+                } else if *so.lock().unwrap() != b"out" || *se.lock().unwrap() != b"err" {
+                    viols.push(("entry:bytes-lost-with-short-writer".to_string(), "child that closes its streams early: output not delivered".to_string(), json!({"kind": "entry-short"})));
+                }
+            }
+            Err(e) => viols.push(("entry:failed".to_string(), format!("spawn_and_write_streams failed: {e}"), json!({"kind": "entry-short"}))),
         }
     }
     (runs, viols)
